@@ -2,12 +2,28 @@
    Only statements, each closed by [exact], each followed by Print Assumptions. *)
 From Coq Require Import List ZArith Bool.
 Import ListNotations.
-From GMS Require Import Expr.C05Expr Expr.C05ExprProofs Rel.C06Equiv.
+From GMS Require Import Expr.C05Expr Expr.C05ExprProofs Rel.C06Equiv Rel.C06HashIn.
 
 (* x IN (e1, ..., en) has the value of x = e1 OR ... OR x = en, on every row (NULLs in x and in the list included) *)
 Theorem C06_in_as_or : forall r a x l, eval r (In a (x :: l)) = eval r (or_chain a x l).
 Proof. exact in_as_or. Qed.
 Print Assumptions C06_in_as_or.
+
+(* the hashed IN (HashInTuple, built by applyHashIn for static lists in filters) answers like IN whenever every non-NULL
+   operand lies in the class of the comparison type chosen from the left operand and the FIRST element *)
+Theorem C06_hash_in_eq_in :
+  forall lt a es c ft v0 rest,
+    es = (v0, ft) :: rest -> cmp_type lt ft = Some c ->
+    forallb (in_class c) (a :: map fst es) = true ->
+    hash_in lt a es = match a with VNull => TN | _ => in_list a (map fst es) false end.
+Proof. exact hash_in_eq_in. Qed.
+Print Assumptions C06_hash_in_eq_in.
+
+(* without the guard it is false of the faithful model: b IN (0, 1.500) with b = 2 *)
+Theorem C06_hash_in_eq_in_refuted :
+  exists lt a es, hash_in lt a es = TT /\ in_list a (map fst es) false = TF.
+Proof. exact hash_in_refuted. Qed.
+Print Assumptions C06_hash_in_eq_in_refuted.
 
 (* v BETWEEN lo AND hi has the value of v >= lo AND v <= hi *)
 Theorem C06_between_as_pair :
